@@ -112,7 +112,7 @@ func (ex *Exec) aes(st *State, enc bool, key []*Term, in []*Term) Value {
 	if !enc {
 		f, g = dn, en
 	}
-	y := c.App(f, BV(128), k, x)
+	y := ex.ufApp(st, f, BV(128), k, x)
 	if !ex.aesApps[y] {
 		ex.aesApps[y] = true
 		// inverse axiom instantiated for this application: g(k, f(k,x)) = x
@@ -209,9 +209,9 @@ func init() {
 			k := ex.concatBytes(key)
 			var y *Term
 			if len(msg) == 0 {
-				y = ex.ctx.App("CMAC_0", BV(128), k)
+				y = ex.ufApp(st, "CMAC_0", BV(128), k)
 			} else {
-				y = ex.ctx.App(fmt.Sprintf("CMAC_%d", len(msg)), BV(128), k, ex.concatBytes(msg))
+				y = ex.ufApp(st, fmt.Sprintf("CMAC_%d", len(msg)), BV(128), k, ex.concatBytes(msg))
 			}
 			return ex.splitBytes(y)
 		},
@@ -270,3 +270,70 @@ func fpUn(op Op) intrinsicFn {
 }
 
 var _ = types.Typ
+
+
+// eqParts compares two terms, decomposing concatenations of equal shape into part-wise equalities.
+func (ex *Exec) eqParts(a, b *Term) *Term {
+	c := ex.ctx
+	if a == b {
+		return c.True
+	}
+	if a.Op == OConcat && b.Op == OConcat && len(a.Args) == len(b.Args) {
+		same := true
+		for i := range a.Args {
+			if a.Args[i].S != b.Args[i].S {
+				same = false
+				break
+			}
+		}
+		if same {
+			r := c.True
+			for i := range a.Args {
+				r = c.And(r, c.Eq(a.Args[i], b.Args[i]))
+				if r.IsFalse() {
+					return r
+				}
+			}
+			return r
+		}
+	}
+	return c.Eq(a, b)
+}
+
+// ufApp creates an uninterpreted-function application; when the path condition already implies that
+// the arguments equal those of an earlier application, the earlier result term is reused
+// (congruence decided by a pure bit-vector query instead of being left to UF reasoning).
+func (ex *Exec) ufApp(st *State, name string, ret Sort, args ...*Term) *Term {
+	c := ex.ctx
+	t := c.App(name, ret, args...)
+	for _, prev := range st.ufApps {
+		if prev == t {
+			return t
+		}
+	}
+	for _, prev := range st.ufApps {
+		if prev.Name != name || len(prev.Args) != len(args) {
+			continue
+		}
+		eq := c.True
+		for i := range args {
+			eq = c.And(eq, ex.eqParts(args[i], prev.Args[i]))
+			if eq.IsFalse() {
+				break
+			}
+		}
+		if eq.IsFalse() {
+			continue
+		}
+		if eq.IsTrue() {
+			return prev
+		}
+		res, _ := ex.sol.Check(c, append(append([]*Term(nil), st.pc...), c.Not(eq)), false)
+		ex.res.UFCongruence++
+		if res == "unsat" {
+			return prev
+		}
+	}
+	st.ufApps = append(st.ufApps, t)
+	return t
+}
